@@ -278,20 +278,45 @@ inductive Err where
   | noFiles | valueError
 deriving DecidableEq, Repr
 
-/-- `FileSet.match(other, start, end, max_interval)` on coverages in µs: for each found
+/-- `datetime.min` / `datetime.max` in µs since 1970-01-01 (the time axis of this model) -/
+def dtMin : Int := -62135596800000000
+def dtMax : Int := 253402300799999999
+
+/-- lower end of the widened search period: `start` (`datetime.min` when `None`) minus
+`max_interval`, clipped to `datetime.min` (the `OverflowError` branch) -/
+def wlo (start : Option Int) (mi : Int) : Int :=
+  let s := match start with
+    | none => dtMin
+    | some s => s
+  if s - mi < dtMin then dtMin else s - mi
+
+/-- upper end: `end` (`datetime.max` when `None`) plus `max_interval`, clipped to `datetime.max` -/
+def whi (end_ : Option Int) (mi : Int) : Int :=
+  let e := match end_ with
+    | none => dtMax
+    | some e => e
+  if dtMax < e + mi then dtMax else e + mi
+
+/-- the matching for a given (already widened) search period `[a, b)`: for each found
 primary (in `find` order) the increasing list of found secondaries whose coverage widened
 by `mi` overlaps; primaries without partner are dropped.  `find` raises `NoFilesError`
 when it finds nothing. -/
-def matchFiles (files1 files2 : List (Int × Int)) (start end_ mi : Int) :
+def matchPeriod (files1 files2 : List (Int × Int)) (a b mi : Int) :
     Except Err (List (Nat × List Nat)) :=
-  let f1 := findIdx (start - mi) (end_ + mi) files1
-  let f2 := findIdx (start - mi) (end_ + mi) files2
+  let f1 := findIdx a b files1
+  let f2 := findIdx a b files2
   if f1.isEmpty || f2.isEmpty then .error .noFiles else
   .ok ((f1.map (fun i =>
       (i, f2.filter (fun j =>
         match files1[i]?, files2[j]? with
         | some p, some s => decide (s.1 - mi ≤ p.2) && decide (p.1 ≤ s.2 + mi)
         | _, _ => false)))).filter (fun m => !m.2.isEmpty))
+
+/-- `FileSet.match(other, start, end, max_interval)` on coverages in µs; `start`/`end` may be
+`None` (open period) -/
+def matchFiles (files1 files2 : List (Int × Int)) (start end_ : Option Int) (mi : Int) :
+    Except Err (List (Nat × List Nat)) :=
+  matchPeriod files1 files2 (wlo start mi) (whi end_ mi) mi
 
 /-- `[[m[0], s] for m in chunk for s in m[1]]` -/
 def flattenMatches (chunk : List (Nat × List Nat)) : List (Nat × Nat) :=
